@@ -49,7 +49,7 @@ TRUSTED_BASE = [
     "positive/Z/N to zarith Big_int_Z with the arithmetic/comparison/div/shift constants of ExtrOcamlZBigInt.v) plus Extract Constant Z.gcd => Big_int_Z.gcd_big_int; ocamlfind ocamlopt 4.13.1, zarith 1.12",
     "correspondence machinery: Python case generator/comparator (tools/), Rust harness (harness/), OCaml line driver (ocaml/runner.ml)",
     "hand-written model tied to /repo by differential runs on generated inputs; the only translated parts are the exact predicate (tools/translate_insphere.py: "
-    "symbolic execution of in_sphere_test_exact and its macros into Gallina, proved equal to the model in C10_gen.v on every C10 run) and the rayon pipelines (C09_gen.v)",
+    "symbolic execution of in_sphere_test_exact and its macros into Gallina, proved equal to the model in C10_gen.v on every C10 run), the public geometry helpers (tools/translate_geom.py: intersect_planes, project_onto, project_onto_intersection, signed_volume_tet, signed_area_tri parsed into Gallina over R, their defining equations proved in C19_gen.v on every C19 run; glam's dot/cross/determinant/project_onto are a fixed prelude) and the rayon pipelines (C09_gen.v)",
     "exact rational re-derivation of clip decisions in Python (tools/decisions.py, C05) and the exact grid replication for the kNN model (C20)",
     "rustc/cargo, glam, rstar, rayon, big-integer crates as used by /repo",
 ]
